@@ -95,18 +95,18 @@ def render_google(r, ents, ret, ind=2, cont=4):
         out.append("Args:")
         for e in ents:
             head = " " * ind + e["name"] + ("" if e["typ"] is None else " (%s)" % e["typ"]) + ":"
-            first = e.get("pytorch") or e["doc"]
+            first = (e.get("pytorch") or e["doc"]).replace("\n", "\n" + " " * (ind + cont))  # a description over two lines stays inside its entry
             out.append(head + (" " + first if first else ""))
             out += [(" " * (ind + cont) + m) if m else "" for m in e["more"]]
     sec_ret = []
     if ret is not None:
         sec_ret.append("Returns:")
         if ret["typ"] is None:
-            sec_ret.append(" " * ind + (ret["doc"] or "the result"))
+            sec_ret.append(" " * ind + (ret["doc"] or "the result").replace("\n", "\n" + " " * ind))
         else:
-            sec_ret.append(" " * ind + ret["typ"] + ":" + (" " + ret["doc"] if ret["doc"] and r.random() < 0.5 else ""))
-            if not sec_ret[-1].endswith(ret["doc"] or "\0") and ret["doc"]:
-                sec_ret.append(" " * (ind + 1) + ret["doc"])
+            sec_ret.append(" " * ind + ret["typ"] + ":" + (" " + ret["doc"].replace("\n", "\n" + " " * (ind + 1)) if ret["doc"] and r.random() < 0.5 else ""))
+            if sec_ret[-1].endswith(":") and ret["doc"]:
+                sec_ret.append(" " * (ind + 1) + ret["doc"].replace("\n", "\n" + " " * (ind + 1)))
         sec_ret += [(" " * (ind + cont) + m) if m else "" for m in ret["more"]]
     return "\n".join(out), "\n".join(sec_ret)
 
@@ -118,14 +118,14 @@ def render_numpy(r, ents, ret, cont=4):
         for e in ents:
             out.append(e["name"] + ("" if e["typ"] is None else " : " + e["typ"]))
             if e["doc"]:
-                out.append(" " * cont + e["doc"])
+                out.append(" " * cont + e["doc"].replace("\n", "\n" + " " * cont))
             out += [(" " * cont + m) if m else "" for m in e["more"]]
     sec_ret = []
     if ret is not None:
         sec_ret += ["Returns", "-------"]
         sec_ret.append(ret["typ"] or "object")
         if ret["doc"]:
-            sec_ret.append(" " * cont + ret["doc"])
+            sec_ret.append(" " * cont + ret["doc"].replace("\n", "\n" + " " * cont))
         sec_ret += [(" " * cont + m) if m else "" for m in ret["more"]]
     return "\n".join(out), "\n".join(sec_ret)
 
